@@ -1,4 +1,4 @@
-(* Witnesses: on the code as it is, "what find() returns is a matched pair" and "find() does not
+(* HISTORY (the code before 97589e3).  Witnesses: on that form of the code, "what find() returns is a matched pair" and "find() does not
    raise" are FALSE of the faithful model.  Two universes with four labels each:
 
      side 1:  3 -> (1, 2)      1 -> (0) | (0, 1)     2 -> (0, 1)              0 an atom
@@ -29,7 +29,7 @@ Definition w2 : side :=
 Definition wd1 : smap := [(3%nat, [1%nat; 2%nat]); (1%nat, [0%nat]); (0%nat, []); (2%nat, [0%nat; 1%nat])].
 Definition wd2 : smap := [(3%nat, [1%nat; 2%nat]); (1%nat, [0%nat]); (0%nat, []); (2%nat, [0%nat; 2%nat])].
 
-Lemma witness_found : find_base w1 w2 20 = Found wd1 wd2.
+Lemma witness_found : find_base_old w1 w2 20 = Found wd1 wd2.
 Proof. vm_compute. reflexivity. Qed.
 
 Ltac open_node Hb H :=
@@ -56,20 +56,18 @@ Proof.
 Qed.
 
 Theorem base_returns_unmatched_pair :
-  exists s1 s2 fuel d1 d2, find_base s1 s2 fuel = Found d1 d2 /\ ~ matched_pair s1 s2 d1 d2.
+  exists s1 s2 fuel d1 d2, find_base_old s1 s2 fuel = Found d1 d2 /\ ~ matched_pair s1 s2 d1 d2.
 Proof. exists w1, w2, 20%nat, wd1, wd2. split; [exact witness_found|exact witness_not_matched]. Qed.
 
 (* EquivalenceRuleExtractor finds no non-equivalence rule on any path: every question is answered True *)
-Definition all_true : list (qkey * bool) :=
-  [((3, 3, (0, 0), ([1; 2], [1; 2])), true); ((1, 1, (4, 4), ([0], [0])), true);
-   ((2, 2, (4, 4), ([0; 1], [0; 2])), true); ((1, 2, (3, 3), ([0], [0; 2])), true)]%nat.
+Definition all_true : qkey -> option bool := fun _ => Some true.
 
 Theorem eqpath_raises_keyerror :
-  exists s1 s2 fuel oracle, find_eq s1 s2 fuel oracle = EOut (Failed E_KEY) [].
+  exists s1 s2 fuel oracle, find_eq_old s1 s2 fuel oracle = EOut (Failed E_KEY) [].
 Proof. exists w1, w2, 20%nat, all_true. vm_compute. reflexivity. Qed.
 
-(* with the repair the same input is answered "nothing found" by both variants *)
+(* the code as it is now (since 97589e3) answers the same input "nothing found" by both variants *)
 Lemma witness_fixed :
-  find_base_fixed w1 w2 20 100 = Nothing /\
-  exists asked, find_eq_fixed w1 w2 20 100 all_true = EOut Nothing asked.
+  find_base w1 w2 20 100 = Nothing /\
+  exists asked, find_eq w1 w2 false 20 100 all_true all_true = EOut Nothing asked.
 Proof. split; [vm_compute; reflexivity|eexists; vm_compute; reflexivity]. Qed.
